@@ -861,3 +861,401 @@ Proof.
   split; [exact Fx|]. split; [exact Hlo|].
   pose proof (exact_delta_spec r c t n Hc ltac:(lia)). lia.
 Qed.
+
+(* above the threshold the computed delta is never negative *)
+Lemma res_exceeding_nonneg r c t n :
+  (1 <= r < 2 ^ 63)%Z -> (0 < c)%Z -> (1 <= n * c < 2 ^ 63)%Z -> (1 <= t <= 2 ^ 31)%Z -> (1 <= n <= 2 ^ 31)%Z ->
+  (8 * nodes_needed_exact r c t < 2 ^ 53)%Z -> exceeds r (n * c) t = true -> (0 <= dz r (n * c) t n)%Z.
+Proof.
+  intros Hr Hc HC Ht Hn Hm Hex. unfold dz.
+  destruct (xt_error r (n * c) t n Hr HC Ht Hn) as [_ [Herr _]].
+  pose proof (xr_ratio r c t n Hc ltac:(lia) ltac:(lia)) as Ex.
+  pose proof (Zceil_xr r c t n Hc ltac:(lia) ltac:(lia)) as Ez.
+  set (x := xr r (n * c) t n) in *. set (X := B2R (xt n t (pct r (n * c)))) in *.
+  assert (Hx : 0 < x).
+  { rewrite Ex. unfold exceeds in Hex. apply Z.ltb_lt in Hex. apply Rdiv_lt_0_compat; apply IZR_lt; nia. }
+  pose proof (Zceil_ub x) as Hub. rewrite Ez in Hub.
+  pose proof u_pos as Hu. pose proof u_two53 as Hu53.
+  assert (Hneed : x + IZR n <= IZR (nodes_needed_exact r c t)).
+  { rewrite <- (exact_delta_spec r c t n) by lia. rewrite plus_IZR. lra. }
+  assert (H8 : 8 * IZR (nodes_needed_exact r c t) < IZR (2 ^ 53)) by (rewrite <- (mult_IZR 8); apply IZR_lt; exact Hm).
+  assert (Hn0 : 0 < IZR n) by (apply IZR_lt; lia).
+  assert (Hsmall : 8 * u * (Rabs x + IZR n) < 1).
+  { rewrite Rabs_pos_eq by lra.
+    apply Rle_lt_trans with (u * (8 * IZR (nodes_needed_exact r c t))); [nra|].
+    rewrite <- Hu53. apply Rmult_lt_compat_l; lra. }
+  apply Rabs_le_inv in Herr. pose proof (Zceil_ub X) as HubX.
+  assert (-1 < Zceil X)%Z by (apply lt_IZR; simpl; lra). lia.
+Qed.
+
+(* nothing requested of a resource *)
+Lemma res_zero C t n : (1 <= C < 2 ^ 63)%Z -> (1 <= t <= 2 ^ 31)%Z -> (1 <= n <= 2 ^ 31)%Z ->
+  is_finite (pct 0 C) = true /\ B2R (pct 0 C) = 0 /\ is_finite (xt n t (pct 0 C)) = true /\ (- 2 ^ 35 <= dz 0 C t n <= 0)%Z.
+Proof.
+  intros HC Ht Hn. destruct (pct_zero C HC) as [Zp Fp].
+  destruct (xt_of_zero (pct 0 C) t n Fp Zp Ht Hn) as [Fx [Lo Hi]].
+  repeat split; try assumption; unfold dz.
+  - pose proof (Zceil_ub (B2R (xt n t (pct 0 C)))) as H.
+    assert (IZR n <= IZR (2 ^ 31)) by (apply IZR_le; lia).
+    assert (8 * IZR (2 ^ 31) + 1 <= IZR (2 ^ 35)) by (rewrite <- (mult_IZR 8), <- (plus_IZR _ 1); apply IZR_le; lia).
+    apply le_IZR. rewrite opp_IZR. lra.
+  - apply Zceil_glb. simpl. lra.
+Qed.
+
+(* ---------- one resource, all cases ---------- *)
+Record res_facts (r c t n : Z) : Prop := {
+  rf_pct_finite : is_finite (pct r (n * c)) = true;
+  rf_pct_small : Rabs (B2R (pct r (n * c))) <= bpow radix2 999;
+  rf_xt_finite : is_finite (xt n t (pct r (n * c))) = true;
+  rf_lower : (- 2 ^ 35 <= dz r (n * c) t n)%Z;
+  rf_below : exceeds r (n * c) t = false -> (dz r (n * c) t n <= 1)%Z;
+  rf_upper : exceeds r (n * c) t = true -> (8 * nodes_needed_exact r c t < 2 ^ 53)%Z ->
+             (0 <= dz r (n * c) t n <= exact_delta r c t n + 1)%Z;
+  rf_suff : exceeds r (n * c) t = true -> res_region r c = true -> (exact_delta r c t n <= dz r (n * c) t n)%Z
+}.
+
+Lemma res_region_split r c : (0 < r)%Z -> (0 < c)%Z -> res_region r c = true ->
+  exists G r' c', (0 < G)%Z /\ r = (G * r')%Z /\ c = (G * c')%Z /\ (800 * r' < 2 ^ 53)%Z.
+Proof.
+  intros Hr Hc H. unfold res_region in H. apply orb_prop in H. destruct H as [H|H]; [apply Z.eqb_eq in H; lia|].
+  apply Z.ltb_lt in H. unfold two53 in H.
+  assert (HG : (0 < Z.gcd r c)%Z).
+  { pose proof (Z.gcd_nonneg r c). destruct (Z.eq_dec (Z.gcd r c) 0) as [E|E]; [apply Z.gcd_eq_0_l in E; lia|lia]. }
+  destruct (Z.gcd_divide_l r c) as [r' Er]. destruct (Z.gcd_divide_r r c) as [c' Ec].
+  exists (Z.gcd r c), r', c'. repeat split; try lia.
+  replace (r / Z.gcd r c)%Z with r' in H; [change (2 ^ 53)%Z with 9007199254740992%Z; exact H|].
+  rewrite Er at 1. rewrite Z.div_mul by lia. reflexivity.
+Qed.
+
+Lemma sufficient_region_upper r c t G r' c' :
+  (0 < c)%Z -> (0 < t)%Z -> (0 < G)%Z -> r = (G * r')%Z -> c = (G * c')%Z -> (0 < r')%Z -> (800 * r' < 2 ^ 53)%Z ->
+  (8 * nodes_needed_exact r c t < 2 ^ 53)%Z.
+Proof.
+  intros Hc Ht HG Er Ec Hr' H.
+  assert (Hc' : (0 < c')%Z) by nia.
+  assert (L : (nodes_needed_exact r c t <= 100 * r')%Z).
+  { apply nodes_needed_least; try assumption. unfold holds_at. rewrite Er, Ec. nia. }
+  lia.
+Qed.
+
+Lemma res_facts_hold r c t n :
+  (0 <= r < 2 ^ 63)%Z -> (0 < c)%Z -> (1 <= n * c < 2 ^ 63)%Z -> (1 <= t <= 2 ^ 31)%Z -> (1 <= n <= 2 ^ 31)%Z ->
+  res_facts r c t n.
+Proof.
+  intros Hr Hc HC Ht Hn.
+  destruct (Z.eq_dec r 0) as [->|Hnz].
+  - destruct (res_zero (n * c) t n HC Ht Hn) as [Fp [Zp [Fx [Lo Hi]]]].
+    assert (Hex : exceeds 0 (n * c) t = false) by (unfold exceeds; apply Z.ltb_ge; nia).
+    constructor; [exact Fp| |exact Fx| | |intro H; congruence|intro H; congruence].
+    + rewrite Zp, Rabs_R0. apply bpow_ge_0.
+    + lia.
+    + intros _. lia.
+  - assert (Hr1 : (1 <= r < 2 ^ 63)%Z) by lia.
+    destruct (pct_float r (n * c) Hr1 HC) as [th [_ [_ [Fp [_ Wp]]]]].
+    assert (Bp : Rabs (B2R (pct r (n * c))) <= bpow radix2 999).
+    { rewrite Rabs_pos_eq by (apply Rlt_le; eapply within_pos; exact Wp). destruct Wp as [_ W]. eapply Rle_trans; [exact W|apply bpow_le; lia]. }
+    destruct (xt_error r (n * c) t n Hr1 HC Ht Hn) as [Fx _].
+    destruct (exceeds r (n * c) t) eqn:Hex.
+    + (* above the threshold *)
+      assert (Lo : (8 * nodes_needed_exact r c t < 2 ^ 53)%Z -> (0 <= dz r (n * c) t n <= exact_delta r c t n + 1)%Z).
+      { intro Hm. destruct (res_at_most_one r c t n Hr1 Hc HC Ht Hn Hm) as [_ [Hup _]].
+        pose proof (res_exceeding_nonneg r c t n Hr1 Hc HC Ht Hn Hm Hex). lia. }
+      assert (Su : res_region r c = true -> (exact_delta r c t n <= dz r (n * c) t n)%Z).
+      { intro Hreg. destruct (res_region_split r c ltac:(lia) Hc Hreg) as [G [r' [c' [HG [Er [Ec H800]]]]]].
+        exact (res_sufficient r c t n G r' c' Hr1 Hc HC Ht Hn HG Er Ec H800 Hex). }
+      constructor; [exact Fp|exact Bp|exact Fx| |intro H; congruence| | ].
+      * (* lower bound without any region: x > 0 so X > -(error), error <= 8u(x+n); use the crude bound via Zceil >= X >= -2^110 is not enough; use xt_error *)
+        destruct (xt_error r (n * c) t n Hr1 HC Ht Hn) as [_ [Herr _]].
+        pose proof (xr_ratio r c t n Hc ltac:(lia) ltac:(lia)) as Ex.
+        set (x := xr r (n * c) t n) in *.
+        assert (Hx : 0 < x).
+        { rewrite Ex. unfold exceeds in Hex. apply Z.ltb_lt in Hex. apply Rdiv_lt_0_compat; apply IZR_lt; nia. }
+        apply Rabs_le_inv in Herr. rewrite (Rabs_pos_eq x) in Herr by lra.
+        pose proof u_pos as Hu. pose proof u_tiny as Hut.
+        assert (Hn0 : 0 < IZR n <= IZR (2 ^ 31)) by (split; [apply IZR_lt|apply IZR_le]; lia).
+        (* X >= x - 8u(x+n) >= -8u n > -1 *)
+        assert (HX : -1 < B2R (xt n t (pct r (n * c)))).
+        { assert (8 * u * IZR n < 1).
+          { apply Rle_lt_trans with (8 * u * IZR (2 ^ 31)); [apply Rmult_le_compat_l; lra|].
+            unfold u. change (2 ^ 31)%Z with 2147483648%Z. lra. }
+          assert (0 <= x * (1 - 8 * u)) by (apply Rmult_le_pos; lra). lra. }
+        pose proof (Zceil_ub (B2R (xt n t (pct r (n * c))))) as HubX. unfold dz.
+        assert (-1 < Zceil (B2R (xt n t (pct r (n * c)))))%Z by (apply lt_IZR; simpl; lra). lia.
+      * intros _. exact Lo.
+      * intros _. exact Su.
+    + destruct (res_not_exceeding r c t n Hr1 Hc HC Ht Hn Hex) as [_ [Lo Hi]].
+      constructor; [exact Fp|exact Bp|exact Fx| | |intro H; congruence|intro H; congruence].
+      * lia.
+      * intros _. exact Hi.
+Qed.
+
+(* ====================================================================================================== *)
+(* the two resources together: statements about the model as scaleNodeGroup calls it                       *)
+(* ====================================================================================================== *)
+Lemma needed_scale k r c t : (0 < k)%Z -> (0 < c)%Z -> (0 < t)%Z ->
+  nodes_needed_exact (k * r) (k * c) t = nodes_needed_exact r c t.
+Proof.
+  intros Hk Hc Ht. unfold nodes_needed_exact.
+  replace (100 * (k * r))%Z with (k * (100 * r))%Z by ring. replace (t * (k * c))%Z with (k * (t * c))%Z by ring.
+  apply ceil_div_scale; nia.
+Qed.
+
+Lemma exceeds_scale k r C t : (0 < k)%Z -> exceeds (k * r) (k * C) t = exceeds r C t.
+Proof.
+  intro Hk. unfold exceeds.
+  destruct (Z.ltb_spec (t * C) (100 * r)); [apply Z.ltb_lt|apply Z.ltb_ge]; nia.
+Qed.
+
+Lemma not_exceeding_needed r c t n : (0 < c)%Z -> (0 < t)%Z -> exceeds r (n * c) t = false -> (nodes_needed_exact r c t <= n)%Z.
+Proof.
+  intros Hc Ht H. apply nodes_needed_least; try assumption. unfold holds_at. unfold exceeds in H. apply Z.ltb_ge in H. nia.
+Qed.
+
+Lemma exceeding_needed r c t n : (0 < c)%Z -> (0 < t)%Z -> exceeds r (n * c) t = true -> (n < nodes_needed_exact r c t)%Z.
+Proof.
+  intros Hc Ht H. destruct (Z_lt_le_dec n (nodes_needed_exact r c t)) as [L|L]; [exact L|exfalso].
+  apply nodes_needed_least in L; try assumption. unfold holds_at in L. unfold exceeds in H. apply Z.ltb_lt in H. nia.
+Qed.
+
+Lemma upper_region_lt m : upper_region m = true <-> (8 * m < 9007199254740992)%Z.
+Proof. unfold upper_region, two53. apply Z.ltb_lt. Qed.
+
+(* the case analysis over the two resources, on plain integers *)
+Lemma two_res_upper (n dc dm Nc Nm : Z) (xc xm : bool) :
+  (8 * Z.max Nc Nm < 9007199254740992)%Z -> xc = true \/ xm = true ->
+  (xc = true -> n < Nc)%Z -> (xc = false -> Nc <= n)%Z -> (xm = true -> n < Nm)%Z -> (xm = false -> Nm <= n)%Z ->
+  (xc = false -> dc <= 1)%Z -> (xm = false -> dm <= 1)%Z ->
+  (xc = true -> 8 * Nc < 9007199254740992 -> 0 <= dc /\ n + dc <= Nc + 1)%Z ->
+  (xm = true -> 8 * Nm < 9007199254740992 -> 0 <= dm /\ n + dm <= Nm + 1)%Z ->
+  (0 <= Z.max dc dm)%Z /\ (n + Z.max dc dm <= Z.max Nc Nm + 1)%Z.
+Proof.
+  intros Hup Hx C1 C2 M1 M2 Bc Bm Uc Um.
+  destruct xc, xm; try (destruct Hx; discriminate).
+  - specialize (Uc eq_refl ltac:(lia)). specialize (Um eq_refl ltac:(lia)). lia.
+  - specialize (Uc eq_refl ltac:(lia)). specialize (Bm eq_refl). specialize (C1 eq_refl). specialize (M2 eq_refl). lia.
+  - specialize (Um eq_refl ltac:(lia)). specialize (Bc eq_refl). specialize (M1 eq_refl). specialize (C2 eq_refl). lia.
+Qed.
+
+Lemma two_res_lower (n dc dm Nc Nm : Z) (xc xm : bool) :
+  xc = true \/ xm = true ->
+  (xc = true -> n < Nc)%Z -> (xc = false -> Nc <= n)%Z -> (xm = true -> n < Nm)%Z -> (xm = false -> Nm <= n)%Z ->
+  (xc = true -> Nc <= n + dc)%Z -> (xm = true -> Nm <= n + dm)%Z ->
+  (Z.max Nc Nm <= n + Z.max dc dm)%Z.
+Proof.
+  intros Hx C1 C2 M1 M2 Sc Sm.
+  destruct xc, xm; try (destruct Hx; discriminate).
+  - specialize (Sc eq_refl). specialize (Sm eq_refl). lia.
+  - specialize (Sc eq_refl). specialize (C1 eq_refl). specialize (M2 eq_refl). lia.
+  - specialize (Sm eq_refl). specialize (M1 eq_refl). specialize (C2 eq_refl). lia.
+Qed.
+
+Section Normal.
+  Variable a : arith_in.
+  Hypothesis Hnorm : c05_normal a = true.
+  Hypothesis Hrng : c05_ranges a = true.
+
+  Let n := a_n a.
+  Let t := a_thr a.
+  Let rc := a_cpu_req a.
+  Let rm := (1000 * a_mem_req a)%Z.
+  Let cc := (a_cpu_cap a / n)%Z.
+  Let cb := (a_mem_cap a / n)%Z.          (* bytes per node *)
+  Let cm := (1000 * cb)%Z.                (* as the code sees it *)
+
+  Lemma normal_sizes :
+    (1 <= n <= 2 ^ 31)%Z /\ (1 <= t <= 2 ^ 31)%Z /\ (0 < cc)%Z /\ (0 < cb)%Z
+    /\ a_cpu_cap a = (n * cc)%Z /\ (1000 * a_mem_cap a = n * cm)%Z
+    /\ (0 <= rc < 2 ^ 63)%Z /\ (0 <= rm < 2 ^ 63)%Z /\ (1 <= n * cc < 2 ^ 63)%Z /\ (1 <= n * cm < 2 ^ 63)%Z
+    /\ (0 <= a_mem_req a)%Z.
+  Proof.
+    destruct (c05_normal_sizes a Hnorm) as [H1 [H2 [H3 [H4 [H5 H6]]]]].
+    unfold c05_ranges, in_range63, two63, two31 in Hrng. unfold c05_normal in Hnorm.
+    fold n t cc cb in H1, H2, H3, H4, H5, H6. unfold rc, rm, cm.
+    change (2 ^ 31)%Z with 2147483648%Z. change (2 ^ 63)%Z with 9223372036854775808%Z.
+    repeat split; try lia.
+  Qed.
+
+  Lemma normal_m_min : c05_m_min a = Z.max (nodes_needed_exact rc cc t) (nodes_needed_exact rm cm t).
+  Proof.
+    destruct normal_sizes as [Hn [Ht [Hcc [Hcb _]]]].
+    unfold c05_m_min, m_min. fold n t cc cb rc. unfold rm, cm. rewrite needed_scale by lia. reflexivity.
+  Qed.
+
+  Lemma normal_exceeds : exceeds rc (n * cc) t = true \/ exceeds rm (n * cm) t = true.
+  Proof.
+    destruct normal_sizes as [Hn [Ht [Hcc [Hcb [E1 [E2 _]]]]]].
+    unfold c05_normal in Hnorm.
+    assert (H : exceeds (a_cpu_req a) (a_cpu_cap a) (a_thr a) = true \/ exceeds (a_mem_req a) (a_mem_cap a) (a_thr a) = true).
+    { destruct (exceeds (a_cpu_req a) (a_cpu_cap a) (a_thr a)); [now left|right].
+      destruct (exceeds (a_mem_req a) (a_mem_cap a) (a_thr a)); [reflexivity|]. rewrite !andb_false_r in Hnorm. discriminate. }
+    destruct H as [H|H]; [left; unfold rc, t; rewrite <- E1; exact H|right].
+    unfold rm, t. rewrite <- E2. rewrite exceeds_scale by lia. exact H.
+  Qed.
+
+  Let dc := dz rc (n * cc) t n.
+  Let dm := dz rm (n * cm) t n.
+
+  (* evaluation of the model on the case *)
+  Lemma normal_eval :
+    (- 2 ^ 62 <= Z.max dc dm <= 2 ^ 62)%Z ->
+    arith_percent a = PctOk (pct rc (n * cc)) (pct rm (n * cm))
+    /\ arith_delta a (pct rc (n * cc)) (pct rm (n * cm))
+       = if (Z.max dc dm <? 0)%Z then DeltaErr (Z.max dc dm) else DeltaOk (Z.max dc dm).
+  Proof.
+    intro Hd. destruct normal_sizes as [Hn [Ht [Hcc [Hcb [E1 [E2 [Hrc [Hrm [HCc [HCm _]]]]]]]]]].
+    destruct (res_facts_hold rc cc t n Hrc Hcc HCc Ht Hn) as [Fc Bc Fxc _ _ _ _].
+    assert (Hcm : (0 < cm)%Z) by (unfold cm; lia).
+    destruct (res_facts_hold rm cm t n Hrm Hcm HCm Ht Hn) as [Fm Bm Fxm _ _ _ _].
+    split.
+    - unfold arith_percent. rewrite percent_quotient by (fold n cc cb cm in E1, E2; lia).
+      unfold pct. fold rc rm. rewrite E1, E2. reflexivity.
+    - unfold arith_delta. fold n t rc rm.
+      apply calc_delta_normal; try assumption.
+      change (-9223372036854775808 <= Z.max dc dm <= 9223372036854775807)%Z.
+      change (2 ^ 62)%Z with 4611686018427387904%Z in Hd. lia.
+  Qed.
+
+  Lemma normal_bounds_lower : (- 2 ^ 35 <= Z.max dc dm)%Z.
+  Proof.
+    destruct normal_sizes as [Hn [Ht [Hcc [Hcb [E1 [E2 [Hrc [Hrm [HCc [HCm _]]]]]]]]]].
+    destruct (res_facts_hold rc cc t n Hrc Hcc HCc Ht Hn) as [_ _ _ Lc _ _ _]. fold dc in Lc. lia.
+  Qed.
+
+  (* the integer facts about the two ceilings, with everything else abstracted away *)
+  Lemma normal_facts :
+    let Nc := nodes_needed_exact rc cc t in let Nm := nodes_needed_exact rm cm t in
+    let xc := exceeds rc (n * cc) t in let xm := exceeds rm (n * cm) t in
+    c05_m_min a = Z.max Nc Nm
+    /\ (xc = true \/ xm = true)
+    /\ (xc = true -> n < Nc)%Z /\ (xc = false -> Nc <= n)%Z /\ (xm = true -> n < Nm)%Z /\ (xm = false -> Nm <= n)%Z
+    /\ (xc = false -> dc <= 1)%Z /\ (xm = false -> dm <= 1)%Z
+    /\ (xc = true -> 8 * Nc < 9007199254740992 -> 0 <= dc /\ n + dc <= Nc + 1)%Z
+    /\ (xm = true -> 8 * Nm < 9007199254740992 -> 0 <= dm /\ n + dm <= Nm + 1)%Z
+    /\ (xc = true -> res_region rc cc = true -> Nc <= n + dc)%Z
+    /\ (xm = true -> res_region rm cm = true -> Nm <= n + dm)%Z.
+  Proof.
+    cbv zeta.
+    destruct normal_sizes as [Hn [Ht [Hcc [Hcb [E1 [E2 [Hrc [Hrm [HCc [HCm _]]]]]]]]]].
+    assert (Hcm : (0 < cm)%Z) by (unfold cm; lia).
+    destruct (res_facts_hold rc cc t n Hrc Hcc HCc Ht Hn) as [_ _ _ _ Bc Uc Sc].
+    destruct (res_facts_hold rm cm t n Hrm Hcm HCm Ht Hn) as [_ _ _ _ Bm Um Sm].
+    pose proof (exact_delta_spec rc cc t n Hcc ltac:(lia)) as Ec. pose proof (exact_delta_spec rm cm t n Hcm ltac:(lia)) as Em.
+    assert (P53 : (2 ^ 53 = 9007199254740992)%Z) by reflexivity. rewrite P53 in Uc, Um. clear P53.
+    split; [exact normal_m_min|]. split; [exact normal_exceeds|].
+    split; [intro X; exact (exceeding_needed rc cc t n Hcc ltac:(lia) X)|].
+    split; [intro X; exact (not_exceeding_needed rc cc t n Hcc ltac:(lia) X)|].
+    split; [intro X; exact (exceeding_needed rm cm t n Hcm ltac:(lia) X)|].
+    split; [intro X; exact (not_exceeding_needed rm cm t n Hcm ltac:(lia) X)|].
+    split; [exact Bc|]. split; [exact Bm|].
+    split; [intros X H; specialize (Uc X H); fold dc in Uc; lia|].
+    split; [intros X H; specialize (Um X H); fold dm in Um; lia|].
+    split; [intros X H; specialize (Sc X H); fold dc in Sc; lia|].
+    intros X H; specialize (Sm X H); fold dm in Sm; lia.
+  Qed.
+
+  (* at most one more *)
+  Lemma normal_at_most_one : (8 * c05_m_min a < 9007199254740992)%Z ->
+    (0 <= Z.max dc dm)%Z /\ (n + Z.max dc dm <= c05_m_min a + 1)%Z.
+  Proof.
+    intro Hup.
+    destruct normal_facts as [Em [Hx [C1 [C2 [M1 [M2 [Bc [Bm [Uc [Um _]]]]]]]]]].
+    rewrite Em in Hup |- *.
+    exact (two_res_upper n dc dm _ _ _ _ Hup Hx C1 C2 M1 M2 Bc Bm Uc Um).
+  Qed.
+
+  (* sufficient *)
+  Lemma normal_sufficient :
+    res_region rc cc = true -> res_region rm cm = true -> (c05_m_min a <= n + Z.max dc dm)%Z.
+  Proof.
+    intros Rc Rm.
+    destruct normal_facts as [Em [Hx [C1 [C2 [M1 [M2 [_ [_ [_ [_ [Sc Sm]]]]]]]]]]].
+    rewrite Em.
+    exact (two_res_lower n dc dm _ _ _ _ Hx C1 C2 M1 M2 (fun X => Sc X Rc) (fun X => Sm X Rm)).
+  Qed.
+
+  (* inside the sufficiency region the minimum is small, so "at most one more" holds there too *)
+  Lemma normal_region_upper :
+    res_region rc cc = true -> res_region rm cm = true -> (8 * c05_m_min a < 9007199254740992)%Z.
+  Proof.
+    intros Rc Rm. rewrite normal_m_min.
+    destruct normal_sizes as [Hn [Ht [Hcc [Hcb [E1 [E2 [Hrc [Hrm [HCc [HCm _]]]]]]]]]].
+    assert (Hcm : (0 < cm)%Z) by (unfold cm; lia).
+    assert (G : forall r c, (0 <= r)%Z -> (0 < c)%Z -> res_region r c = true -> (8 * nodes_needed_exact r c t < 9007199254740992)%Z).
+    { intros r c Hr Hc R. destruct (Z.eq_dec r 0) as [->|Hnz].
+      - assert (nodes_needed_exact 0 c t <= 0)%Z by (apply nodes_needed_least; try lia; unfold holds_at; nia). lia.
+      - destruct (res_region_split r c ltac:(lia) Hc R) as [G [r' [c' [HG [Er [Ec H800]]]]]].
+        change 9007199254740992%Z with (2 ^ 53)%Z.
+        apply (sufficient_region_upper r c t G r' c'); try assumption; try lia; nia. }
+    pose proof (G rc cc ltac:(lia) Hcc Rc). pose proof (G rm cm ltac:(lia) Hcm Rm). lia.
+  Qed.
+End Normal.
+
+Definition model_d (a : arith_in) : Z :=
+  Z.max (dz (a_cpu_req a) (a_n a * (a_cpu_cap a / a_n a)) (a_thr a) (a_n a))
+        (dz (1000 * a_mem_req a) (a_n a * (1000 * (a_mem_cap a / a_n a))) (a_thr a) (a_n a)).
+
+Lemma model_eval a :
+  c05_normal a = true -> c05_ranges a = true -> (8 * c05_m_min a < 9007199254740992)%Z ->
+  arith_percent a = PctOk (pct (a_cpu_req a) (a_n a * (a_cpu_cap a / a_n a))) (pct (1000 * a_mem_req a) (a_n a * (1000 * (a_mem_cap a / a_n a))))
+  /\ arith_delta a (pct (a_cpu_req a) (a_n a * (a_cpu_cap a / a_n a))) (pct (1000 * a_mem_req a) (a_n a * (1000 * (a_mem_cap a / a_n a))))
+     = DeltaOk (model_d a)
+  /\ (0 <= model_d a)%Z /\ (a_n a + model_d a <= c05_m_min a + 1)%Z.
+Proof.
+  intros Hn Hr Hu.
+  destruct (normal_at_most_one a Hn Hr Hu) as [P U]. fold (model_d a) in P, U.
+  pose proof (normal_bounds_lower a Hn Hr) as L. fold (model_d a) in L.
+  destruct (normal_sizes a Hn Hr) as [Hnn _].
+  destruct (normal_eval a Hn Hr) as [Ep Ed].
+  { fold (model_d a). change (2 ^ 62)%Z with 4611686018427387904%Z. change (2 ^ 31)%Z with 2147483648%Z in Hnn. lia. }
+  fold (model_d a) in Ed.
+  split; [exact Ep|]. split; [|split; assumption].
+  rewrite Ed. destruct (Z.ltb_spec (model_d a) 0); [lia|reflexivity].
+Qed.
+
+(* c05_at_most_one_more on the model *)
+Theorem model_at_most_one_more a :
+  c05_normal a = true -> c05_ranges a = true -> upper_region (c05_m_min a) = true ->
+  exists cp mp d, arith_percent a = PctOk cp mp /\ arith_delta a cp mp = DeltaOk d
+    /\ (0 <= d)%Z /\ (a_n a + d <= c05_m_min a + 1)%Z.
+Proof.
+  intros Hn Hr Hu. apply upper_region_lt in Hu.
+  destruct (model_eval a Hn Hr Hu) as [Ep [Ed [P U]]].
+  eexists _, _, _. split; [exact Ep|]. split; [exact Ed|]. split; assumption.
+Qed.
+
+Lemma region_parts a : c05_normal a = true -> c05_region a = true ->
+  c05_ranges a = true /\ res_region (a_cpu_req a) (a_cpu_cap a / a_n a) = true
+  /\ res_region (1000 * a_mem_req a) (1000 * (a_mem_cap a / a_n a)) = true.
+Proof.
+  intros Hn Hreg. unfold c05_region in Hreg. rewrite Hn in Hreg.
+  apply andb_prop in Hreg. destruct Hreg as [Hreg Rm]. apply andb_prop in Hreg. destruct Hreg as [Hr Rc].
+  split; [exact Hr|]. split; [exact Rc|].
+  destruct (c05_normal_sizes a Hn) as [H1 [_ [_ [_ [_ H6]]]]].
+  replace (1000 * (a_mem_cap a / a_n a))%Z with (1000 * a_mem_cap a / a_n a)%Z; [exact Rm|].
+  rewrite H6 at 1. replace (1000 * (a_n a * (a_mem_cap a / a_n a)))%Z with ((1000 * (a_mem_cap a / a_n a)) * a_n a)%Z by ring.
+  apply Z.div_mul. lia.
+Qed.
+
+(* c05_sufficient_partial on the model: inside the granularity region *)
+Theorem model_sufficient a :
+  c05_normal a = true -> c05_region a = true ->
+  exists cp mp d, arith_percent a = PctOk cp mp /\ arith_delta a cp mp = DeltaOk d
+    /\ (c05_m_min a <= a_n a + d <= c05_m_min a + 1)%Z.
+Proof.
+  intros Hn Hreg. destruct (region_parts a Hn Hreg) as [Hr [Rc Rm]].
+  pose proof (normal_region_upper a Hn Hr Rc Rm) as Hu.
+  destruct (model_eval a Hn Hr Hu) as [Ep [Ed [P U]]].
+  pose proof (normal_sufficient a Hn Hr Rc Rm) as S. fold (model_d a) in S.
+  eexists _, _, _. split; [exact Ep|]. split; [exact Ed|]. split; assumption.
+Qed.
+
+(* hence the checker can never fail on the model inside the region (V <> [] with R = [] is excluded there) *)
+Corollary model_passes_checker a :
+  c05_normal a = true -> c05_region a = true ->
+  exists cp mp d, arith_percent a = PctOk cp mp /\ arith_delta a cp mp = DeltaOk d /\ check_delta a (Some (d, false)) = true.
+Proof.
+  intros Hn Hreg. destruct (model_sufficient a Hn Hreg) as [cp [mp [d [Ep [Ed [L U]]]]]].
+  exists cp, mp, d. split; [exact Ep|]. split; [exact Ed|].
+  unfold check_delta. rewrite Hn. apply andb_true_intro. split; [apply Z.leb_le; exact L|].
+  destruct (upper_region (c05_m_min a)); [apply Z.leb_le; exact U|reflexivity].
+Qed.
